@@ -312,6 +312,7 @@ func (p *Path) callFunction(fn *ssa.Function, args []Value, env []Value) Value {
 	}()
 	var prev *ssa.BasicBlock
 	blk := fn.Blocks[0]
+	skipPhis, mergedPhis := false, false
 	for {
 		if p.cov != nil {
 			p.cov[blk] = true
@@ -325,6 +326,9 @@ func (p *Path) callFunction(fn *ssa.Function, args []Value, env []Value) Value {
 			p.curInstr = ins
 			switch x := ins.(type) {
 			case *ssa.Phi:
+				if skipPhis {
+					continue // already merged by the if-conversion that brought us here
+				}
 				for i, pred := range blk.Preds {
 					if pred == prev {
 						fr.locals[fi.index[x]] = p.get(fr, x.Edges[i])
@@ -332,7 +336,14 @@ func (p *Path) callFunction(fn *ssa.Function, args []Value, env []Value) Value {
 					}
 				}
 			case *ssa.If:
-				c := p.get(fr, x.Cond).(*Term)
+				c := p.simp(p.get(fr, x.Cond).(*Term))
+				if c.op != OConst {
+					if j := p.ifConvert(fr, blk, c); j != nil {
+						next = j
+						mergedPhis = true
+						break
+					}
+				}
 				if p.branch(c) {
 					next = blk.Succs[0]
 				} else {
@@ -373,6 +384,8 @@ func (p *Path) callFunction(fn *ssa.Function, args []Value, env []Value) Value {
 		if next == nil {
 			p.unsupported("block without terminator in %s", fn)
 		}
+		skipPhis = mergedPhis
+		mergedPhis = false
 		prev, blk = blk, next
 	}
 }
@@ -1485,4 +1498,125 @@ func (e *Engine) lookupMethod(t types.Type, m *types.Func) *ssa.Function {
 	fn := e.prog.MethodValue(sel)
 	e.methods = append(e.methods, methodEnt{t, m.Name(), fn})
 	return fn
+}
+
+// ---------------------------------------------------------------------------------------------
+// If-conversion of pure triangles/diamonds: `if c { x = f(x) }` becomes x = ite(c, f(x), x) instead of a fork.
+
+func (p *Path) pureInstr(fr *Frame, ins ssa.Instruction) bool {
+	switch x := ins.(type) {
+	case *ssa.BinOp:
+		switch x.Op {
+		case token.QUO, token.REM:
+			return false
+		case token.SHL, token.SHR:
+			// the shift count must already be a concrete value (no negative-count fault can hide in the arm)
+			if _, isConst := x.Y.(*ssa.Const); isConst {
+				return true
+			}
+			if yi, ok := x.Y.(ssa.Instruction); ok && yi.Block() == ins.Block() {
+				return false
+			}
+			i, ok := fr.info.index[x.Y]
+			if !ok || fr.locals[i] == nil {
+				return false
+			}
+			t, ok := fr.locals[i].(*Term)
+			return ok && p.simp(t).op == OConst
+		}
+		_, basic := x.X.Type().Underlying().(*types.Basic)
+		return basic
+	case *ssa.UnOp:
+		return x.Op != token.MUL && x.Op != token.ARROW
+	case *ssa.Convert:
+		_, b1 := x.X.Type().Underlying().(*types.Basic)
+		_, b2 := x.Type().Underlying().(*types.Basic)
+		return b1 && b2 && !isString(x.X.Type()) && !isString(x.Type())
+	case *ssa.ChangeType, *ssa.DebugRef:
+		return true
+	}
+	return false
+}
+
+// pureArm: block b has blk as its only predecessor, consists of pure instructions and jumps to a join block.
+func (p *Path) pureArm(fr *Frame, b, blk *ssa.BasicBlock) *ssa.BasicBlock {
+	if len(b.Preds) != 1 || b.Preds[0] != blk || len(b.Instrs) == 0 || len(b.Instrs) > 12 {
+		return nil
+	}
+	for _, ins := range b.Instrs[:len(b.Instrs)-1] {
+		if !p.pureInstr(fr, ins) {
+			return nil
+		}
+	}
+	if _, ok := b.Instrs[len(b.Instrs)-1].(*ssa.Jump); !ok {
+		return nil
+	}
+	return b.Succs[0]
+}
+
+func (p *Path) runArm(fr *Frame, b *ssa.BasicBlock) {
+	for _, ins := range b.Instrs[:len(b.Instrs)-1] {
+		p.steps++
+		p.curInstr = ins
+		if v, ok := ins.(ssa.Value); ok {
+			fr.locals[fr.info.index[v]] = p.evalInstr(fr, v)
+		}
+	}
+}
+
+func (p *Path) ifConvert(fr *Frame, blk *ssa.BasicBlock, c *Term) *ssa.BasicBlock {
+	t, f := blk.Succs[0], blk.Succs[1]
+	jt, jf := p.pureArm(fr, t, blk), p.pureArm(fr, f, blk)
+	var join *ssa.BasicBlock
+	var predT, predF *ssa.BasicBlock // predecessors of join for the true / false side
+	switch {
+	case jt != nil && jt == f: // triangle: then-arm falls into the else block
+		join, predT, predF = f, t, blk
+	case jf != nil && jf == t:
+		join, predT, predF = t, blk, f
+	case jt != nil && jt == jf:
+		join, predT, predF = jt, t, f
+	default:
+		return nil
+	}
+	// every phi of the join must merge scalars
+	var phis []*ssa.Phi
+	for _, ins := range join.Instrs {
+		ph, ok := ins.(*ssa.Phi)
+		if !ok {
+			break
+		}
+		if _, basic := ph.Type().Underlying().(*types.Basic); !basic || isString(ph.Type()) {
+			return nil
+		}
+		phis = append(phis, ph)
+	}
+	if predT != blk {
+		p.runArm(fr, predT)
+	}
+	if predF != blk {
+		p.runArm(fr, predF)
+	}
+	vals := make([]Value, len(phis))
+	for k, ph := range phis {
+		var vt, vf Value
+		for i, pred := range join.Preds {
+			if pred == predT {
+				vt = p.get(fr, ph.Edges[i])
+			}
+			if pred == predF {
+				vf = p.get(fr, ph.Edges[i])
+			}
+		}
+		tt, ok1 := vt.(*Term)
+		tf, ok2 := vf.(*Term)
+		if !ok1 || !ok2 {
+			p.unsupported("if-conversion over non-scalar phi")
+		}
+		vals[k] = p.ts.Ite(c, tt, tf)
+	}
+	for k, ph := range phis {
+		fr.locals[fr.info.index[ph]] = vals[k]
+	}
+	return join
 }
